@@ -425,8 +425,9 @@ def jump_contract(name, g, jn):
     # anchors: the `if (*j & 1 << b) != 0` test and the step call
     ins = [
         after(r'const JUMP:[^=]*=[^;]*;', 'let ghost s_init = %s; let ghost tf = %s; proof { assert(JUMP@ =~= %s); }' % (view_self, tfn, jref)),
-        before(lit('if (*j & 1 << b) != 0'), bitproof),
-        after(lit('self.%s();' % native), stepproof),
+        # all proof text sits at the head of the inner loop body (only j, b and ghost state are mentioned), so that the weave
+        # does not depend on the order of the statements in the body: a reordered body fails an invariant instead of an anchor
+        Insert('loopbody', 1, bitproof + '\n' + stepproof),
     ]
     return Fn(None, builtin_props='C14 C18', ensures=[
         C(pre + '.poly', 'C06', '%s =~= %s(%s, %s, %s, %d)' % (view_fin, poly, tfn, jref, view_old, n))],
